@@ -965,6 +965,18 @@ def oracle_c01(tr, sc):
                     'end value',
                     f"step at t={a['t']!r} (block {a['block']} slot {a['slot']}) reported residual {rec['reported']:.3e} <= restol {restol:.3e}, but |uend - collocation solution| = {err:.3e} > kappa_end*restol + rounding = {bound2:.3e}",
                 )
+    # fixed-point probe: an iteration that starts on the fine collocation solution (of the first step of a block, whose initial
+    # value nobody changes) must end on it, whatever preconditioner, coarse levels, predictor or coupling are configured
+    if getattr(ctx, 'exact_probes', None):
+        recs = {(r['block'], r['slot'], r['iter']): r for r in ctx.shadow_recs if r['at'] == 'post_iteration' and r.get('level', 0) == 0}
+        later = {(f['block'], f['slot']) for f in sc['faults'].get('soft', []) if f['kind'] != 'exact'}
+        for b, sl, k in ctx.exact_probes:
+            r = recs.get((b, sl, k))
+            if r is None or (b, sl) in later or not np.isfinite(r['full']) or sc.get('problem_kind') == 'advection':
+                continue  # (advection with central differences: purely imaginary spectrum, the iteration amplifies rounding by many orders)
+            res.probe('fixed_point_probe')
+            if r['full'] > 1e-9 * max(r['S'], 1e-300):  # clean runs stay below 2e-12 of the rounding scale
+                V('collocation_solution_not_a_fixed_point', 'iteration', f"block {b} slot {sl}: iteration {k} started on the fine collocation solution and ended with defect {r['full']:.3e} (rounding scale {r['S']:.3e})")
     if acc and not same_bytes(tr.ret_copy, acc[-1]['uend']):
         V('returned_value', 'run', 'returned value is not the end value of the last step')
 
